@@ -843,6 +843,23 @@ def analyse(chk):
                                                why='a data race in the C evaluators breaks agreement with the kernel sum'))
 
 
+def _fuse_spin_gradient_wrong(text):
+    a = text.find("            _add_deriv(outd_a + iloc, xin_a + iloc, xctrl_a + cloc, exps, aabb,")
+    b = text.find("void evaluate_se_kernel_spin_v2")
+    if a < 0 or b < a:
+        return None
+    end = text.rfind("        }\n    }\n}\n", a, b)
+    if end < 0:
+        return None
+    fused = ("            for (int j = 0; j < nfeat; j++) {\n"
+             "                double xa = xin_a[iloc + j];\n                double xb = xin_b[iloc + j];\n"
+             "                double ca = xctrl_a[cloc + j];\n                double cb = xctrl_b[cloc + j];\n"
+             "                outd_a[iloc + j] += 2 * exps[j] * (aabb * (ca - xa) + abba * (cb - xa));\n"
+             "                outd_b[iloc + j] += 2 * exps[j] * (aabb * (cb - xb) + abba * (ca - xa));\n"
+             "            }\n")
+    return text[:a] + fused + text[end:]
+
+
 def _shift_scale_early(text):
     late = "    if len(sinds) == 0:\n        scale = scale[1:]\n        return scale, ind_sets, spline_grids, coeff_sets, const\n"
     anchor = "    D = X[:, inds]\n    N = D.shape[1]\n    for i in range(N):\n        density = srbf_density"
@@ -899,6 +916,8 @@ def mutants(tree):
         Mutant("plain kernel: gradient taken with the antisym offsets", MU_C_REL,
                "_add_deriv(outd + iloc, xin + iloc, xctrl + cloc, exps, tot, nfeat);",
                "_add_deriv(outd + iloc, xin + iloc, xctrl + iloc, exps, tot, nfeat);", expect="grad-pairing"),
+        Mutant("spin kernel: fused inline gradient loop with a wrong operand", MU_C_REL, fn=_fuse_spin_gradient_wrong,
+               expect="grad-pairing"),
         Mutant("mapper: scale shifted before the constant term is formed", MT, fn=_shift_scale_early,
                expect="scale-order"),
         Mutant("arbf_args: order-2 block uses the order-1 scale", KN,
